@@ -74,7 +74,7 @@ class C07(Engine):
             if rng.random() < 0.08:
                 classes.append(rng.choice(pool + ["out", "e2p"]))  # often a conflicting set
             if "e2o" in classes and "o2e" in classes:
-                classes.remove("o2e")  # (1>&2 2>&1 is order dependent in POSIX shells; not specified here)
+                classes = [c for c in classes if c != "o2e"]  # (1>&2 2>&1 is order dependent in POSIX shells; not specified here)
             # a merge operator together with an explicit destination for the stream it merges INTO, or with a
             # pipe redirect, is order dependent in POSIX shells and not specified by the statement: not generated
             if "o2e" in classes:
@@ -103,7 +103,7 @@ class C07(Engine):
 
     def gen_case(self, rng, tier, seed):
         form = rng.choice(FORMS)
-        n = rng.choices((1, 2, 3), (4, 4, 2))[0]
+        n = rng.choices((1, 2, 3, 4), (8, 8, 5, 1))[0]
         stages = []
         for i in range(n):
             kind = rng.choices(("proc", "alias", "ualias", "uproc"), (6, 3, 1 if n == 1 else 0, 1 if i == n - 1 else 0))[0]
@@ -117,6 +117,16 @@ class C07(Engine):
                     "pause": rng.choice((0, 0, 1e-4, 0.01)),
                 }
             )
+        if n >= 3 and rng.random() < 0.25:
+            # the documented `cmd o> file e>p | next` form on an EARLY stage of a longer pipeline: what one stage's
+            # wiring decides must not leak into the wiring of the stages after it
+            j = rng.randrange(0, n - 2)
+            stages[j]["redirs"] = [
+                {"cls": "out", "sp": rng.choice(OUT_NAMES) + rng.choice((">", ">", ">>")), "tk": rng.choice(("new", "existing"))},
+                {"cls": "e2p", "sp": rng.choice(E2P)},
+            ]
+            stages[j]["ne"] = max(stages[j]["ne"], 1)
+            stages[j + 1]["no"] = max(stages[j + 1]["no"], 1)
         knobs = {
             "p": rng.choice((0.0, 0.02, 0.1, 0.3)),
             "policy": rng.choice(("random", "random", "starve", "pct", "nopreempt")),
